@@ -4032,8 +4032,8 @@ func (ce *callEngine) callNativeFunc(ctx context.Context, m *wasm.ModuleInstance
 			if offset%4 != 0 {
 				panic(wasmruntime.ErrRuntimeUnalignedAtomic)
 			}
-			// Just a bounds check
-			if offset >= memoryInst.Size() {
+			// Just a bounds check. Not memoryInst.Size(): its uint32 result is 0 for a 65536-page memory.
+			if int(offset) > len(memoryInst.Buffer)-4 {
 				panic(wasmruntime.ErrRuntimeOutOfBoundsMemoryAccess)
 			}
 			res := memoryInst.Notify(offset, uint32(count))
